@@ -500,6 +500,36 @@ func (g *rwgen) expr(depth int) *pexpr {
 				y = &pexpr{kind: "A", name: c.name}
 			}
 		}
+		if g.r.Intn(4) == 0 { // true / false bodies under a condition that is already boolean: c?x:false -> c&&x etc.
+			cmpOps := []string{"LtToken", "EqEqToken", "NotEqEqToken"}
+			cmp := func() *pexpr {
+				if g.r.Intn(4) == 0 {
+					return &pexpr{kind: "P", op: "NotToken", kids: []*pexpr{g.atom()}}
+				}
+				return &pexpr{kind: "B", op: cmpOps[g.r.Intn(3)], kids: []*pexpr{g.atom(), g.atom()}}
+			}
+			switch g.r.Intn(4) {
+			case 0:
+				c = &pexpr{kind: "B", op: "OrToken", kids: []*pexpr{cmp(), cmp()}}
+			case 1:
+				c = &pexpr{kind: "B", op: "AndToken", kids: []*pexpr{cmp(), cmp()}}
+			case 2:
+				c = cmp()
+			}
+			lit := &pexpr{kind: "T", name: []string{"true", "false"}[g.r.Intn(2)]}
+			if g.r.Intn(2) == 0 {
+				x = lit
+			} else {
+				y = lit
+			}
+			if g.r.Intn(4) == 0 {
+				x = &pexpr{kind: "T", name: "true"}
+				y = &pexpr{kind: "T", name: "false"}
+				if g.r.Intn(2) == 0 {
+					x, y = y, x
+				}
+			}
+		}
 		if g.r.Intn(5) == 0 { // calls of the same function in both bodies
 			f := fmt.Sprintf("f%d", 1+g.r.Intn(2))
 			x = &pexpr{kind: "K", kids: []*pexpr{{kind: "A", name: f}, g.fit(g.expr(depth-2), 1)}}
